@@ -70,9 +70,20 @@ type FuncSpec struct {
 	Asserts    []AssertAt
 	Owned      []string // locals that must only ever hold slices allocated by this activation
 	Acquires   []*Clause // mutexes this function locks itself: a caller must not hold them
+	Tables     []ConstTable
 	File       string
 	Line       int
 	Used       bool
+}
+
+// ConstTable: consttable VAR: K1 => V1, K2 => V2, ... - the package-level map VAR is initialised by a
+// composite literal with exactly these constant entries and is never written afterwards; the facts are
+// then available to the function that carries the directive.
+type ConstTable struct {
+	Var     string
+	Keys    []*Clause
+	Vals    []*Clause
+	Line    int
 }
 
 // AssertAt: assert LABEL: EXPR before|after CALLEE[#k] - an obligation at a call site
@@ -392,6 +403,30 @@ func (sp *Specs) LoadSpecFile(path, pkgName string) {
 			if cur != nil {
 				cur.Mutual = true
 			}
+		case "consttable":
+			if cur == nil {
+				errf(l, "consttable outside func block")
+				continue
+			}
+			i := strings.Index(rest, ":")
+			if i < 0 {
+				errf(l, "bad consttable (want: consttable VAR: K => V, ...)")
+				continue
+			}
+			ct := ConstTable{Var: strings.TrimSpace(rest[:i]), Line: l.line}
+			for _, part := range splitTop(rest[i+1:]) {
+				kv := strings.SplitN(part, "=>", 2)
+				if len(kv) != 2 {
+					errf(l, "bad consttable entry %q", part)
+					continue
+				}
+				k, v := mkClause(l, strings.TrimSpace(kv[0])), mkClause(l, strings.TrimSpace(kv[1]))
+				if k != nil && v != nil {
+					ct.Keys = append(ct.Keys, k)
+					ct.Vals = append(ct.Vals, v)
+				}
+			}
+			cur.Tables = append(cur.Tables, ct)
 		case "acquires":
 			if cur == nil {
 				errf(l, "acquires outside func block")
